@@ -9,8 +9,9 @@
 #include "../harness/addrcore.hpp"
 
 using namespace vf;
-extern "C" const vapi dflt_api;
-static Core *K_;
+extern "C" const vapi dflt_api, o001_api;
+static Core *K_, *KD_, *KU_;    // current / default build / LABELS_ALLOW_UNDERSCORE build
+static bool g_us = false;
 static std::string g_case;
 static std::map<int, std::string> g_text; // errcode -> message seen
 static std::map<std::string, int> E;      // name -> value
@@ -100,16 +101,18 @@ static std::string err_truth(const Facts &f, int m, int t, int mask, const v_out
     if (m < 3) X = f.D; else { if (!f.conv_ok) return "a domain/TLD code in mode 6531 although IDNA conversion fails (must be the IDN error)"; X = f.aform; }
     Bytes Xs = X; if (Xs.size() >= 2 && Xs.back() == '.') Xs.pop_back();
     std::vector<Bytes> labs = ref::split_labels(Xs);
+    if (n == "DOMAIN_INVALID_CHAR" && g_us) { for (unsigned char c : X) if (!(c < 0x80 && (isalnum(c) || c == '-' || c == '.' || c == '_'))) return ""; return "only letters, digits, '-', '_' and '.' in the domain (LABELS_ALLOW_UNDERSCORE build)"; }
     if (n == "DOMAIN_LABEL_TOO_LONG") { for (auto &l : labs) if (l.size() > 63) return ""; return "no label longer than 63"; }
     if (n == "DOMAIN_MISPLACED_HYPHEN") { for (auto &l : labs) if (!l.empty() && (l[0] == '-' || l.back() == '-')) return ""; return "no label starts or ends with '-'"; }
     if (n == "DOMAIN_MISPLACED_DELIMITER") { for (auto &l : labs) if (l.empty()) return ""; return "no empty label"; }
     if (n == "DOMAIN_INVALID_CHAR") { for (unsigned char c : X) if (!(c < 0x80 && (isalnum(c) || c == '-' || c == '.'))) return ""; return "only letters, digits, '-' and '.' in the domain"; }
     if (n == "DOMAIN_TOO_LONG") return X.size() >= 254 ? "" : "the domain has " + std::to_string(X.size()) + " octets";
     if (n == "DOMAIN_NUMERIC") { for (unsigned char c : X) if (!(isdigit(c) || c == '.')) return "the domain is not made of digits and dots only"; return ""; }
+    if (n == "DOMAIN_INVALID_CHAR" && g_us) { for (unsigned char c : X) if (!(c < 0x80 && (isalnum(c) || c == '-' || c == '.' || c == '_'))) return ""; return "only letters, digits, '-', '_' and '.' in the domain (underscore build)"; }
     if (n.rfind("DOMAIN_", 0) == 0 && n != "DOMAIN_NOT_FQDN") return "";
     // TLD-level codes need TLD checking and a syntactically valid host
     if (!t) return "a FQDN/TLD code with TLD checking off";
-    if (!ref::host_ok(X)) return "a FQDN/TLD code although the host name is syntactically invalid";
+    if (!ref::host_ok(X, g_us)) return "a FQDN/TLD code although the host name is syntactically invalid";
     if (n == "DOMAIN_NOT_FQDN") return (X.find('.') == Bytes::npos && !ref::reserved(X)) ? "" : "the domain has a dot or is a reserved name";
     // root-dot spellings are outside the statements of C07/C09: class judged on the dot-less form, 'invalid TLD' not judged
     int cls = tld_class(K_->T, C, Xs);
@@ -122,10 +125,22 @@ static std::string err_truth(const Facts &f, int m, int t, int mask, const v_out
     return "";
 }
 
+static std::optional<Failure> check_build(Run &R, const Bytes &a, int mask);
 static std::optional<Failure> check_one(Run &R, const Bytes &a, int mask) {
+    K_ = KD_; g_us = false;
+    auto f = check_build(R, a, mask);
+    if (f) return f;
+    size_t at = a.rfind('@');
+    if (KU_ && at != Bytes::npos && a.find('_', at) != Bytes::npos) {   // the option build judges domains with '_' differently: same truthfulness rules
+        K_ = KU_; g_us = true; f = check_build(R, a, mask); K_ = KD_; g_us = false;
+        if (f) f->explain = "[LABELS_ALLOW_UNDERSCORE build] " + f->explain;
+    }
+    return f;
+}
+static std::optional<Failure> check_build(Run &R, const Bytes &a, int mask) {
     Core &K = *K_; const Consts &C = K.C;
     g_case = mkcase(a, mask).str();
-    Facts f = facts(K.T, C, a);
+    Facts f = facts(K.T, C, a, g_us);
     Outs o = K.run(a, mask);
     R.eval(16);
     for (int m = 0; m < 4; m++) for (int t = 0; t < 2; t++) {
@@ -222,7 +237,7 @@ static void stage_targets(Run &R) {
     std::vector<Bytes> seeds = corpus_lines(R.a.datadir);
     for (const char *x : {"", "@b.com", "a@", "a", "\x80@b.com", "a b@c.com", "a\x01@c.com", "a\"b@c.com", "\"a@c.com", "a..b@c.com", ".a@c.com", "a.@c.com",
                           "\"a b c\"@d.com", "\"a\rb\"@d.com", "\xD0@d.com", "a@" , "a@-b.com", "a@b-.com", "a@b..com", "a@.b.com", "a@b_c.com", "a@1.2", "a@b", "a@b.zzunlisted", "a@[1.2.3]", "a@[1.2.3.4",
-                          "a@x.abarth", "a@x.ru", "a@x.com", "a@x.name", "a@x.arpa", "a@x.aero", "a@example.com", "a@\xE2\x99\xA5.com", "a@\xD0\xBF.\xD1\x80\xD1\x84", "a@b.c.", "a@b.com.", "a@localhost.", "a@com."})
+                          "a@x.abarth", "a@x.ru", "a@x.com", "a@x.name", "a@x.arpa", "a@x.aero", "a@example.com", "a@\xE2\x99\xA5.com", "a@\xD0\xBF.\xD1\x80\xD1\x84", "a@b.c.", "a@b.com.", "a@localhost.", "a@com.", "a@1_2.3_4", "a@192_168.0_1", "a@_", "a@a_b.com", "a@_a.com", "a@a_.c_m", "a@1_2"})
         seeds.push_back(x);
     seeds.push_back(Bytes("a@") + Bytes(64, 'l') + ".com"); seeds.push_back(Bytes("a@") + Bytes(63, 'l') + "." + Bytes(63, 'm') + "." + Bytes(63, 'n') + "." + Bytes(63, 'o') + ".com");
     seeds.push_back(Bytes(65, 'a') + "@b.com");
@@ -247,11 +262,11 @@ int main(int argc, char **argv) {
             if (kind == 2) { Run R2; R2.a = R.a; stage_codes(R2); if (R2.failed()) return R2.failures[0]; return std::nullopt; }
             return check_one(R, c.getb("addr"), (int) c.geti("mask"));
         }, [] { return g_case; },
-        [](Run &R) { K_ = new Core(&dflt_api); K k(K_->A); for (const char *n : CODES) E[n] = k(std::string("EEAV_") + n); E["MAX"] = k("EEAV_MAX"); return K_->init(R.a.datadir); }, [] { delete K_; });
+        [](Run &R) { KD_ = K_ = new Core(&dflt_api); KU_ = new Core(&o001_api); K k(K_->A); for (const char *n : CODES) E[n] = k(std::string("EEAV_") + n); E["MAX"] = k("EEAV_MAX"); return KD_->init(R.a.datadir) && KU_->init(R.a.datadir); }, [] { delete KD_; delete KU_; });
     return rc;
 }
 #else
-VF_FUZZ_TARGET("C15", [](Run &R) { K_ = new Core(&dflt_api); K k(K_->A); for (const char *n : CODES) E[n] = k(std::string("EEAV_") + n); E["MAX"] = k("EEAV_MAX"); return K_->init(R.a.datadir); },
+VF_FUZZ_TARGET("C15", [](Run &R) { KD_ = K_ = new Core(&dflt_api); KU_ = new Core(&o001_api); K k(K_->A); for (const char *n : CODES) E[n] = k(std::string("EEAV_") + n); E["MAX"] = k("EEAV_MAX"); return KD_->init(R.a.datadir) && KU_->init(R.a.datadir); },
     [](Run &R, const uint8_t *d, size_t n) -> std::optional<Failure> {
         if (n < 2) return std::nullopt;
         int mask = (d[n - 1] | (d[n - 2] << 8)) % 2048; if (d[n - 1] & 0x80) mask = K_->default_mask();
